@@ -59,6 +59,10 @@ impl<'a> Tape<'a> {
         &xs[self.choose(xs.len())]
     }
 
+    pub fn pick_s<'b, S: AsRef<str>>(&mut self, xs: &'b [S]) -> &'b str {
+        xs[self.choose(xs.len())].as_ref()
+    }
+
     /// Index drawn according to integer weights; earlier entries are simpler.
     pub fn weighted(&mut self, ws: &[u32]) -> usize {
         let total: u64 = ws.iter().map(|w| *w as u64).sum();
